@@ -38,6 +38,17 @@ def bar_scenarios(rng, n):
                                  'dur': {'kind': 'map', 'map': {}, 'default': rng.choice([0.05, 0.2])}}, nxt, {'op': 'apply_collect', 'of': 1}]
             sc['same_func'] = False
             sc['all_valid'] = True
+        elif rng.random() < .1:
+            # an apply task was interrupted by its time limit earlier on the same workers: a later call shows its bar as usual
+            nj = rng.choice([1, 2, 3])
+            k = rng.randint(1, 3)
+            sc['pool'] = {'n_jobs': nj, 'start_method': 'fork', 'keep_alive': rng.random() < .5}
+            sc['ops'] = [{'op': 'apply_batch', 'tasks': [{'idx': i} for i in range(k)], 'task_timeout': 0.2, 'get_timeout': 30,
+                          'dur': {'kind': 'map', 'map': {str(rng.randrange(k)): 30.0}, 'default': 0.01}},
+                         {'op': rng.choice(['map', 'imap', 'imap_unordered']), 'n': rng.randint(3, 12), 'chunk_size': rng.choice([1, 2]), 'progress_bar': True, 'elem': 'scalar',
+                          'dur': {'kind': 'hash', 'salt': rng.randint(0, 99), 'unit': 0.01}}]
+            sc['same_func'] = False
+            sc['all_valid'] = False
         elif rng.random() < .12:
             # worker THREADS that are replaced at the very end of a call without a bar (lifespan reached with their last task) and are
             # slow to get going: they come to life while the next call is already showing its bar
